@@ -117,3 +117,15 @@ Theorem C04_nonvacuous_check_then_act :
   cta_program (mini [("Create", create_fresh)]%string) [("Create", create_fresh)]%string = [] /\
   check_program (mini [("Create", create_stale)]%string) [("Create", create_stale)]%string ["Create"]%string [] [] = [].
 Proof. exact (conj cta_rejected (conj cta_accepted cta_stale_still_guarded)). Qed.
+
+(* The tie, stated for the very function the check evaluates: `Run_Conc.mismatches cases` is computed by vm_compute in every
+   cases_*.v file and must be [].  That verdict holds exactly when, for every observed concurrent history: the delivery
+   oracle accepts every (Send, pipeline version) count (its rules are the verdicts of C04_send_delivery_bounds /
+   C04_send_delivery_some), the calls are linearizable on the sequential model with the observed results and final registry,
+   and the search concluded within its budget (lin_budget = 200000 nodes; running out of it is reported as KLinBudget, i.e. a
+   non-empty list, never as acceptance). *)
+Theorem C04_verdict_is_linearizable_history : forall cs,
+  mismatches cs = [] <->
+  Forall (fun c => delivery_oracle_ok c /\ linearizable (cc_final c) b0 (cc_ops c) /\ search_conclusive c) cs.
+Proof. exact verdict_iff. Qed.
+Print Assumptions C04_verdict_is_linearizable_history.
